@@ -399,6 +399,9 @@ func (ev *Evaluator) evalValue(fr *frame, v ssa.Value, depth int) Val {
 		if x.High != nil {
 			hi = ev.get(fr, x.High).(int64)
 		}
+		if c, ok := base.(*Cell); ok { // slice of *[N]T
+			base = c.V
+		}
 		switch b := base.(type) {
 		case string:
 			if hi < 0 {
